@@ -255,6 +255,72 @@ func init() {
 			m.pools[p] = append(m.pools[p], a[1])
 			return nil
 		},
+		// os.Pipe / *os.File on a pipe: an in-engine byte queue. Contract modelled (package os, internal/poll):
+		// Write blocks never (unbounded kernel buffer: stated), writes all of b as ONE step that no other
+		// Write on the same File interleaves with (the fd write lock is held for the whole call), after a
+		// scheduling point; Read blocks until data or the write end is closed, returns at most len(b).
+		"os.Pipe": func(m *Machine, c *frame, fn *ssa.Function, a []value) value {
+			ft := fn.Signature.Results().At(0).Type().(*types.Pointer).Elem()
+			ps := &pipeState{}
+			var rc, wc value = zero(ft), zero(ft)
+			r, w := &rc, &wc
+			m.files[r] = &fileState{p: ps}
+			m.files[w] = &fileState{p: ps, w: true}
+			return tuple{r, w, ifaceV{}}
+		},
+		"(*os.File).Write": func(m *Machine, c *frame, fn *ssa.Function, a []value) value {
+			f := m.files[a[0].(*value)]
+			if f == nil {
+				m.abort("os.File.Write on a file that is not a modelled pipe")
+			}
+			m.preemptPoint()
+			if f.closed || !f.w || f.p.rclosed {
+				return tuple{mkConst(64, 0), m.newError(mkStr("write: file already closed or broken pipe"))}
+			}
+			b := a[1].([]value)
+			f.p.buf = append(f.p.buf, b...)
+			return tuple{mkConst(64, uint64(len(b))), ifaceV{}}
+		},
+		"(*os.File).Read": func(m *Machine, c *frame, fn *ssa.Function, a []value) value {
+			f := m.files[a[0].(*value)]
+			if f == nil {
+				m.abort("os.File.Read on a file that is not a modelled pipe")
+			}
+			b := a[1].([]value)
+			if len(b) == 0 {
+				return tuple{mkConst(64, 0), ifaceV{}}
+			}
+			m.block(func() bool { return len(f.p.buf) > 0 || f.p.wclosed || f.closed }, "pipe read")
+			if f.closed {
+				return tuple{mkConst(64, 0), m.newError(mkStr("read: file already closed"))}
+			}
+			if len(f.p.buf) == 0 {
+				eof := m.prog.ImportedPackage("io").Members["EOF"].(*ssa.Global)
+				return tuple{mkConst(64, 0), *m.global(eof)}
+			}
+			n := copy(b, f.p.buf)
+			f.p.buf = f.p.buf[n:]
+			return tuple{mkConst(64, uint64(n)), ifaceV{}}
+		},
+		"(*os.File).Close": func(m *Machine, c *frame, fn *ssa.Function, a []value) value {
+			f := m.files[a[0].(*value)]
+			if f == nil {
+				m.abort("os.File.Close on a file that is not a modelled pipe")
+			}
+			if f.closed {
+				return m.newError(mkStr("close: file already closed"))
+			}
+			f.closed = true
+			if f.w {
+				f.p.wclosed = true
+			} else {
+				f.p.rclosed = true
+			}
+			return ifaceV{}
+		},
+		"(*os.File).Fd": func(m *Machine, c *frame, fn *ssa.Function, a []value) value {
+			return mkConst(64, 3)
+		},
 		// sync.Map as an association list with Go's interface-key equality
 		"(*sync.Map).Load": func(m *Machine, c *frame, fn *ssa.Function, a []value) value {
 			mp := m.syncMapOf(a[0].(*value))
